@@ -57,8 +57,34 @@ the archive anew for every member, `zipfile.ZipFile(root, "w" | "a")`.  `ZipFile
 not let an `OSError` of that `open` escape: it retries with the next file mode (`r+b` → `w+b` →
 `wb`).  For the first two opens (`create`: the archive is new or still empty) the retry is
 harmless; for a later one (`reopen`) the retry with `w+b` *truncates* the archive: the members
-written so far are gone, the save carries on and reports success. -/
-inductive TmpKind | plain | create | reopen
+written so far are gone, the save carries on and reports success.  (`create` is also what
+openpyxl's `ZipFile(path, "w")` of a workbook among the IO data files is, in either format.)
+
+`guarded` / `guardedClose`: operations under a handler that absorbs a `PermissionError` and tries
+again.  `ziputil.copy_file` (file → archive: how `archive_dir` adds the IO data files written
+to the work directory to the temporary archive) runs `with ZipFile(root, "a") as z: z.write(src,
+member)` up to three times (GH82); `TemporaryDirectory.cleanup` re-tries an `unlink`/`rmdir`
+after resetting permissions.  A transient `PermissionError` of `z.write` (`guarded`) is
+harmless: the `with` closes the archive properly and the next attempt adds the member.  A
+transient `PermissionError` of the *close* (`guardedClose`) leaves the archive without central
+directory; the next attempt's `ZipFile(root, "a")` then takes it for "not a zip file, just
+append" and starts a new archive behind the old bytes: every member written so far is gone,
+the save carries on and reports success. -/
+inductive TmpKind | plain | create | reopen | guarded | guardedClose
+deriving DecidableEq, Repr
+
+/-- the class of the error raised at the fault point, as far as the code under test
+distinguishes it: `except PermissionError` (`copy_file`, `TemporaryDirectory`) vs. any `OSError`
+(`zipfile`'s file-mode retry, `shutil.move`) -/
+inductive Exc | os | perm
+deriving DecidableEq, Repr
+
+/-- how the environment fails: which error, and whether it is transient (`persist = false`: the
+operation fails once, every later operation works) or persists (every further attempt at the
+same operation on the same file fails too – a locked file, a read-only share) -/
+structure Policy where
+  exc : Exc := .os
+  persist : Bool := false
 deriving DecidableEq, Repr
 
 inductive Prim
@@ -144,17 +170,31 @@ def rot (fs : FS) (nrm : Nat) : Nat → Nat → List Prim
 
 def rotation (maxB nrm : Nat) (fs : FS) : List Prim := rot fs nrm maxB 0
 
-/-- directory format: `make_root`, then `nw + 1` operations below the path -/
-def dirWriter (g nw : Nat) : List Prim :=
-  .mkroot g :: (List.replicate nw (.write g false) ++ [.write g true])
+/-- directory format, one operation after `make_root` but the last: `none` = a `mkdir`/`open`/
+`dump`/`ZipFile.writestr` below the path; `some t` = an operation that leaves the (already
+partial) tree as it is – openpyxl's temporary files (`plain`), its `ZipFile(path, "w")` of a
+workbook below the path (`create`) -/
+def dirOp (g : Nat) : Option TmpKind → Prim
+  | none => .write g false
+  | some t => .tmp t
 
-/-- zip format: the operations in the temporary directory, the move, `b` clean-up operations -/
+/-- `n` plain operations below the path -/
+def plainBody (n : Nat) : List (Option TmpKind) := List.replicate n none
+
+/-- directory format: `make_root`, the operations `body`, the final operation below the path -/
+def dirWriter (g : Nat) (body : List (Option TmpKind)) : List Prim :=
+  .mkroot g :: (body.map (dirOp g) ++ [.write g true])
+
+/-- zip format: the operations in the temporary directory (writing the members, writing the IO
+data files to the work directory, adding them to the archive), the move, `b` clean-up operations
+(`tempdir.cleanup()`: the `unlink`/`rmdir` calls of an `rmtree` under `TemporaryDirectory`'s
+`PermissionError` handler) -/
 def zipWriter (g : Nat) (pre : List TmpKind) (b : Nat) : List Prim :=
-  pre.map .tmp ++ [.move g] ++ List.replicate b (.tmp .plain)
+  pre.map .tmp ++ [.move g] ++ List.replicate b (.tmp .guarded)
 
-/-- the same sequence when the archive has been truncated on the way -/
+/-- the same sequence when the archive has lost members on the way -/
 def zipWriterBroken (g : Nat) (pre : List TmpKind) (b : Nat) : List Prim :=
-  pre.map .tmp ++ [.moveBroken g] ++ List.replicate b (.tmp .plain)
+  pre.map .tmp ++ [.moveBroken g] ++ List.replicate b (.tmp .guarded)
 
 /-- one call of `write_model` / `zip_model`: format, generation written, and the sizes the
 environment determines (entries of the tree to be removed, number of writer operations) -/
@@ -162,22 +202,24 @@ structure Save where
   kind : Kind
   g : Nat
   nrm : Nat := 1
-  /-- directory format: operations below the path after `make_root`, minus one -/
-  n1 : Nat := 0
+  /-- directory format: the operations after `make_root`, but the last -/
+  body : List (Option TmpKind) := []
   /-- zip format: the operations before the move -/
   pre : List TmpKind := []
   /-- zip format: clean-up operations after the move -/
   n2 : Nat := 0
+  /-- how the environment fails during this call (if it does) -/
+  pol : Policy := {}
 deriving Repr
 
 def writer (sv : Save) : List Prim :=
   match sv.kind with
-  | .dir => dirWriter sv.g sv.n1
+  | .dir => dirWriter sv.g sv.body
   | .zip => zipWriter sv.g sv.pre sv.n2
 
 def writerBroken (sv : Save) : List Prim :=
   match sv.kind with
-  | .dir => dirWriter sv.g sv.n1
+  | .dir => dirWriter sv.g sv.body
   | .zip => zipWriterBroken sv.g sv.pre sv.n2
 
 /-- `serialize.write_model`: `_increment_backups(model, root, max_backups)` and then
@@ -187,23 +229,32 @@ def plan (maxB : Nat) (sv : Save) (fs : FS) : List Prim := rotation maxB sv.nrm 
 def planBroken (maxB : Nat) (sv : Save) (fs : FS) : List Prim :=
   rotation maxB sv.nrm fs ++ writerBroken sv
 
-/-- what an `OSError` at primitive `k` does -/
+/-- what an error at primitive `k` does -/
 inductive FaultKind
   | raises      -- the save is interrupted there
-  | retried     -- swallowed by `ZipFile.__init__`, no effect
-  | truncates   -- swallowed by `ZipFile.__init__`, the archive is re-created empty
+  | retried     -- absorbed by the calling code, which tries again: no effect
+  | truncates   -- absorbed, and the next attempt re-creates the archive without its members
 deriving DecidableEq, Repr
 
-def faultKind (pl : List Prim) (k : Nat) : FaultKind :=
+/-- who absorbs what.  `ZipFile.__init__` retries the `open` with the next file mode on any
+`OSError` (a `PermissionError` is one): two more modes at most, so an error that persists comes
+out.  `copy_file`'s loop and `TemporaryDirectory`'s handler absorb a `PermissionError` only,
+and give up (re-raise) when it persists.  `shutil.move` falls back to `copy2` + `unlink` when its
+`os.rename` fails – other operations, so even a persistent error of the rename is absorbed. -/
+def faultKind (pol : Policy) (pl : List Prim) (k : Nat) : FaultKind :=
   match pl[k]? with
-  | some (.tmp .create) => .retried
-  | some (.tmp .reopen) => .truncates
-  | some (.move _) => .retried     -- `shutil.move`: `os.rename` failed → `copy2` + `unlink`
+  | some (.tmp .create) => if pol.persist then .raises else .retried
+  | some (.tmp .reopen) => if pol.persist then .raises else .truncates
+  | some (.tmp .guarded) => if pol.exc = .perm ∧ pol.persist = false then .retried else .raises
+  | some (.tmp .guardedClose) =>
+    if pol.exc = .perm ∧ pol.persist = false then .truncates else .raises
+  | some (.move _) => .retried
   | _ => .raises
 
-/-- a save with an `OSError` at primitive `k` (none at all when `k ≥` the plan's length) -/
+/-- a save during which primitive `k` fails the way `sv.pol` says (no failure at all when `k ≥`
+the plan's length) -/
 def save (maxB : Nat) (sv : Save) (k : Nat) (fs : FS) : FS × Bool :=
-  match faultKind (plan maxB sv fs) k with
+  match faultKind sv.pol (plan maxB sv fs) k with
   | .raises => run (plan maxB sv fs) k fs
   | .retried => run (plan maxB sv fs) (plan maxB sv fs).length fs
   | .truncates => run (planBroken maxB sv fs) (planBroken maxB sv fs).length fs
